@@ -4,7 +4,7 @@ the executed text and the file are the rewrites below, each the identity on conc
 
   T1  for x in E: T.append(V)        ->  T = __pyvc__.for_app(T, lambda x: V, E)      (likewise extend)
   T2  [V for x in E if C] / (V for..) ->  __pyvc__.comp(lambda x: V, E, lambda x: C)
-  T3  S.join(E)                      ->  __pyvc__.join(S, E)
+  T3  S.join(E)                      ->  __pyvc__.join(S, E)          L.extend(E) -> __pyvc__.extend(L, E)
   T4  len/int/str/list/bool/all/any/enumerate(...)  ->  __pyvc__.b_<name>(...)
       permutations(...)              ->  __pyvc__.b_permutations(...)
       re.match/search/split          ->  __pyvc__.re.<name>        copy.deepcopy -> __pyvc__.deepcopy
@@ -31,11 +31,16 @@ class T(ast.NodeTransformer):
         self.counts = REWRITES.setdefault(modname, {"T1": 0, "T2": 0, "T3": 0, "T4": 0})
         self.shadow: List[set] = [set()]
         self.first_arg: List[str] = []
+        self.func_nodes: List[ast.AST] = []
+        self.loop_no = 0
+        self.modname = modname
 
     def visit_FunctionDef(self, node):
         a = node.args.posonlyargs + node.args.args
         self.first_arg.append(a[0].arg if a else "")
+        self.func_nodes.append(node)
         self.generic_visit(node)
+        self.func_nodes.pop()
         self.first_arg.pop()
         return node
 
@@ -108,6 +113,9 @@ class T(ast.NodeTransformer):
         if isinstance(f, ast.Attribute) and f.attr == "join" and len(node.args) == 1 and not node.keywords:
             self.counts["T3"] += 1
             return ast.Call(func=self._rt("join"), args=[f.value, node.args[0]], keywords=[])
+        if isinstance(f, ast.Attribute) and f.attr == "extend" and len(node.args) == 1 and not node.keywords:
+            self.counts["T3"] += 1
+            return ast.Call(func=self._rt("extend"), args=[f.value, node.args[0]], keywords=[])
         if isinstance(f, ast.Name) and f.id in BUILTINS:
             self.counts["T4"] += 1
             return ast.Call(func=self._rt("b_" + f.id), args=node.args, keywords=node.keywords)
@@ -124,10 +132,65 @@ class T(ast.NodeTransformer):
                 return ast.Call(func=self._rt("deepcopy"), args=node.args, keywords=node.keywords)
         return node
 
+    def _general_loop(self, node):
+        """T1 (general form): a loop whose body has no break/continue/return/yield and assigns only
+        loop-local names becomes  `def __pyvc_body_k(x): BODY` + `__pyvc__.for_each(E, __pyvc_body_k, id)`.
+        On a concrete iterable for_each is `for x in E: body(x)`."""
+        if node.orelse:
+            return node
+        fn = self.func_nodes[-1] if self.func_nodes else None
+        if fn is None:
+            return node
+        for n in ast.walk(ast.Module(body=node.body, type_ignores=[])):
+            if isinstance(n, (ast.Break, ast.Continue, ast.Return, ast.Yield, ast.YieldFrom, ast.Await, ast.Global, ast.Nonlocal)):
+                return node
+        assigned = set()
+        for n in ast.walk(ast.Module(body=node.body, type_ignores=[])):
+            if isinstance(n, ast.Name) and isinstance(n.ctx, (ast.Store, ast.Del)):
+                assigned.add(n.id)
+        tnames = set(n.id for n in ast.walk(node.target) if isinstance(n, ast.Name))
+        # names assigned in the body (or the loop variable) must not be used elsewhere in the function
+        outside = set()
+        inloop = set(id(n) for n in ast.walk(node))
+
+        def collect(n, bound):
+            if id(n) in inloop:
+                return
+            if isinstance(n, ast.Lambda):
+                b2 = bound | set(a.arg for a in n.args.args)
+                collect(n.body, b2)
+                return
+            if isinstance(n, ast.Name) and n.id not in bound:
+                outside.add(n.id)
+            for ch in ast.iter_child_nodes(n):
+                collect(ch, bound)
+        collect(fn, frozenset())
+        if (assigned | tnames) & outside:
+            return node
+        if not isinstance(node.target, ast.Name):
+            return node
+        self.loop_no += 1
+        name = f"__pyvc_body_{self.loop_no}"
+        body = [self._fix_super(b) for b in node.body]
+        fdef = ast.FunctionDef(name=name, args=ast.arguments(posonlyargs=[], args=[ast.arg(arg=node.target.id)], kwonlyargs=[],
+                                                             kw_defaults=[], defaults=[]), body=body, decorator_list=[], returns=None,
+                               type_params=[])
+        call = ast.Expr(value=ast.Call(func=self._rt("for_each"),
+                                       args=[node.iter, ast.Name(id=name, ctx=ast.Load()),
+                                             ast.Constant(value=f"{self.modname}:{fn.name}:{self.loop_no}")], keywords=[]))
+        self.counts["T1"] += 1
+        return [ast.copy_location(fdef, node), ast.copy_location(call, node)]
+
     def visit_For(self, node):
         self.generic_visit(node)
         if node.orelse or not node.body:
             return node
+        r = self._append_loop(node)
+        if r is not node:
+            return r
+        return self._general_loop(node)
+
+    def _append_loop(self, node):
         *pre, st = node.body
         # leading statements must be plain single-name assignments (loop-local temporaries)
         for a in pre:
@@ -136,6 +199,11 @@ class T(ast.NodeTransformer):
         if not (isinstance(st, ast.Expr) and isinstance(st.value, ast.Call)):
             return node
         c = st.value
+        if (isinstance(c.func, ast.Attribute) and isinstance(c.func.value, ast.Name) and c.func.value.id == "__pyvc__"
+                and c.func.attr == "extend" and len(c.args) == 2):
+            # already rewritten L.extend(V) -> __pyvc__.extend(L, V): undo for the loop form
+            c = ast.Call(func=ast.Attribute(value=c.args[0], attr="extend", ctx=ast.Load()), args=[c.args[1]], keywords=[])
+            self.counts["T3"] -= 1
         if not (isinstance(c.func, ast.Attribute) and c.func.attr in ("append", "extend") and len(c.args) == 1 and not c.keywords):
             return node
         tgt = c.func.value
